@@ -95,6 +95,17 @@ def run_tlc(module, cfg, tag, workers=16, simulate=None, depth=None, seed=None, 
             raise MachineryError("TLC timeout after %ss: %s %s" % (timeout, module, cfg))
     res.wall = time.time() - t0
     _parse(res, collect, print_file)
+    # exhaustive runs print from several workers: the order of the emitted lines depends on thread scheduling.  Sort them,
+    # so that what a driver samples with VERIF_SEED depends on the seed only (simulation runs are single-worker and
+    # their order is the behaviour itself: left alone)
+    if simulate is None:
+        if print_file:
+            with open(print_file) as f:
+                lines = sorted(f.readlines())
+            with open(print_file, "w") as f:
+                f.writelines(lines)
+        elif collect:
+            res.printed.sort(key=lambda v: json.dumps(v))
     return res
 
 
